@@ -36,6 +36,13 @@ R3={'A1':'C06','A2':'C11','A3':'C14','A4':'C09','B1':'C02','B2':'C10','B3':'C12'
 def sh(cmd, **k): return subprocess.run(cmd, shell=True, capture_output=True, text=True, **k)
 def clean():
     sh('git -C /repo reset -q --hard HEAD')
+# the checks rewrite /verif/evidence on every run: what they write while a seeded change is applied must not stay there
+import shutil, atexit
+_EV='/verif/evidence'; _BAK='/verif/out/evidence_before_seed_evaluation'
+shutil.rmtree(_BAK, ignore_errors=True); os.makedirs('/verif/out', exist_ok=True); shutil.copytree(_EV, _BAK)
+def _restore():
+    shutil.rmtree(_EV, ignore_errors=True); shutil.copytree(_BAK, _EV)
+atexit.register(_restore)
 prefix=sys.argv[1] if len(sys.argv)>1 else ''
 names=sorted(d for d in os.listdir(SEED) if os.path.isdir(os.path.join(SEED,d)) and d.startswith(prefix))
 for name in names:
